@@ -672,3 +672,10 @@ def x1(cx: Cx, ob: Ob) -> None:
     from .c10 import check_no_aliasing
 
     check_no_aliasing(cx, ob)
+
+
+@obligation("C18-X12", "def-use lints over the files this property is anchored in (api.py, mapping_service/api.py, mapping_service/rdflib_custom.py, mapping_service/utils.py): no one-shot iterator (generator expression, map, filter, zip, iter, reversed, enumerate, generator call) bound to a name is consumed twice or inside a loop that starts after its creation; no mutable default argument is mutated, stored or returned", floor=1)
+def x12(cx: Cx, ob: Ob) -> None:
+    from ..rules import package_lints
+
+    package_lints(cx, ob, {'mapping_service/rdflib_custom.py', 'api.py', 'mapping_service/utils.py', 'mapping_service/api.py'})
